@@ -13,6 +13,8 @@ def explore(run, lean):
                          "instrumented / queued hosts; thorough tier adds all trees with <=5 states x all (cur,S,T) x all single "
                          "init assignments; non-trivial = the script reaches the property's mechanism (see histogram); "
                          "distinct by canonical JSON")
+    ROUND6_RULE = '; transitions answered with the other statuses of the transition class (TRAN_HIST, TRAN_INIT, TRAN_EP, TRAN_XP)'
+    run.extra["rule"] += ROUND6_RULE
 
 
 def replay(case):
